@@ -1,16 +1,9 @@
 import Gopki.Lemmas.WfLemmas
+import Gopki.Spec.Shape
 /-! Well-formedness from shape: a value whose tags are all valid is well formed as soon as its whole encoding
     fits one DER length (2^64 octets), because every nested content is no longer than the whole. -/
 namespace Der
 
-mutual
-def tagsOk : Tlv → Bool
-  | .prim t _ => !isCons t && (t &&& 0x1f != 0x1f)
-  | .cons t cs => isCons t && (t &&& 0x1f != 0x1f) && tagsOkList cs
-def tagsOkList : List Tlv → Bool
-  | [] => true
-  | x :: xs => tagsOk x && tagsOkList xs
-end
 
 theorem content_le_enc_prim (t : UInt8) (c : Bytes) : c.length ≤ (Tlv.prim t c).enc.length := by
   simp only [Tlv.enc, List.length_cons, List.length_append]; omega
